@@ -1,7 +1,7 @@
 PROPERTY = "C13"
 ENCODED = ["linux::maps_reader::MappingInfo::aggregate", "maps_reader::sanitize_path", "maps_reader::is_mapping_a_path (own equivalence harnesses)", "MappingInfo::{is_empty_page,end_address,is_executable,name_is_path}"]
 BOUNDS = {"lines": "1-2 lines (3 in the thorough tier)",
-          "names": "concrete per instance: anonymous, [heap], [vdso], /a, '/a (deleted)', /b; quick tier: file-named pairs with a concrete adjacency pattern (adjacent / one page apart), symbolic gaps in the thorough tier",
+          "names": "concrete per instance: anonymous, [heap], [vdso], /a, '/a (deleted)', /b; quick tier (900 s limit): pairs of anonymous / pseudo-named lines and SINGLE file-named lines; pairs with a file-named line take 9-12 min each and are in the thorough tier (concrete adjacency pattern: finish; symbolic gaps: attempted)",
           "numbers": "first start k<<12 (16<=k<2^34), each line 1..8 pages, gap before each line 0..2 pages (or concrete 0/1), all 5 permission bits, offset and vDSO address fully symbolic",
           "is_mapping_a_path": "equivalence with the byte-loop reference for EVERY byte string of length 0,1,2,6,13,15 (16 and 24 in the thorough tier)"}
 OUTSIDE = ["more than 2 lines in the quick tier (3-line fold rule 'file, anonymous page, same file' is thorough only)", "text parsing of /proc/<pid>/maps (procfs-core)", "names longer than 15 bytes in the quick tier",
@@ -11,7 +11,8 @@ ASSUMPTIONS = ["input lines ascending and non-overlapping (a well-formed memory 
                "inside aggregate, is_mapping_a_path is replaced by a byte-loop 'contains a slash' reference (std's memchr on the merged name pointer exhausts memory); the real function is proved equal to the reference in c13_is_path_eq_*",
                "MemoryMaps built by transmuting Vec<MemoryMap> (the struct is #[non_exhaustive])"]
 L = {"RawIterRange": 2, "drop_elements": 2, "simd_bitmask": 2, "memchr": 16, "memcmp": 16, "compare_bytes": 16, "naive_is_path": 16, "is_mapping_a_path": 16}
-def A(n, d, tier="quick", t=1800, **kw): return H("c13_aggregate::" + n, loops=L, desc=d, tier=tier, timeout=t, est_gb=20, mem_gb=30, **kw)
+LS = {"RawIterRange": 2, "drop_elements": 2, "simd_bitmask": 2, "memchr": 4, "memcmp": 4, "compare_bytes": 4, "naive_is_path": 4, "is_mapping_a_path": 4}
+def A(n, d, tier="quick", t=1800, **kw): return H("c13_aggregate::" + n, loops=kw.pop("loops", L), desc=d, tier=tier, timeout=t, est_gb=kw.pop("est_gb", 20), mem_gb=30, **kw)
 NM = ("a merge happened",)
 NN = ("no merge happened",)
 LE = {"memchr": 34, "naive_is_path": 34, "is_mapping_a_path": 34}
@@ -19,14 +20,16 @@ def E(n, tier="quick"): return H("c13_aggregate::c13_is_path_eq_len%d" % n, loop
 HARNESSES = [
     A("c13_2_anon_anon", "two anonymous lines (never merged)", expect_unsat_covers=NM),
     A("c13_2_heap_anon", "[heap] then anonymous (never merged: the reserved-gap rule needs a file mapping)", expect_unsat_covers=NM),
-    A("c13_2_anon_vdso_gate", "anonymous + [vdso] with a symbolic gate address (renaming; never merged)", expect_unsat_covers=NM),
+    A("c13_1_vdso_gate", "one [vdso] line with a symbolic gate address: renamed to linux-gate.so iff it starts at the gate address", expect_unsat_covers=NM),
+    A("c13_1_anon_gate", "one anonymous line with a symbolic gate address", expect_unsat_covers=NM),
+    A("c13_2_anon_vdso_gate", "anonymous + [vdso] with a symbolic gate address (renaming; never merged) (~9 min)", "thorough", expect_unsat_covers=NM),
     # file-named lines (feasible since is_mapping_a_path is replaced by its byte-loop reference, DESIGN 0.9)
     A("c13_1_file", "one file-named line", expect_unsat_covers=NM),
     A("c13_1_deleted", "one '/a (deleted)' line: suffix removed", expect_unsat_covers=NM),
-    A("c13_2_same_adjacent", "same file, adjacent: merged", expect_unsat_covers=NN),
-    A("c13_2_same_apart", "same file, one page apart: not merged", expect_unsat_covers=NM),
-    A("c13_2_diff_adjacent", "different files, adjacent: merged only by the reserved-gap rule"),
-    A("c13_2_file_anon_adjacent", "file + anonymous, adjacent (reserved-gap rule after an executable file mapping)"),
+    A("c13_2_same_adjacent", "same file, adjacent: merged (~10 min)", "thorough", expect_unsat_covers=NN),
+    A("c13_2_same_apart", "same file, one page apart: not merged (~9 min)", "thorough", expect_unsat_covers=NM),
+    A("c13_2_diff_adjacent", "different files, adjacent: merged only by the reserved-gap rule (~10 min)", "thorough"),
+    A("c13_2_file_anon_adjacent", "file + anonymous, adjacent (reserved-gap rule after an executable file mapping) (~12 min)", "thorough"),
     E(1), E(2), E(6), E(13), E(15), E(16, "thorough"), E(24, "thorough"),
     H("c13_aggregate::c13_is_path_eq_len0", desc="empty name / no name are not paths", expect_unsat_covers=()),
     A("c13_2_same", "same file twice, symbolic gap", "thorough", 3000), A("c13_2_deleted_same", "'/a (deleted)' then /a, symbolic gap", "thorough", 3000),
